@@ -80,7 +80,7 @@ CANARIES = {
             "module": "mici.systems",
             "old": "            cos_omega_dt * eigvec_trans_mom - (sin_omega_dt / omega) * eigvec_trans_pos",
             "new": "            cos_omega_dt * eigvec_trans_mom + (sin_omega_dt / omega) * eigvec_trans_pos",
-            "cases": ["flow/gauss/2/diag"], "what": "Gaussian-split rotation with the wrong sign",
+            "cases": ["flow/gauss/1/diag"], "what": "Gaussian-split rotation with the wrong sign",
         },
         "h1_flow_sign": {
             "module": "mici.systems",
